@@ -2145,7 +2145,36 @@ func (w *c14W) r3(hard, soft []*c14Site) {
 			c.Undec(rule, key, sel.Pos(), "cannot locate the body of the timer's select case")
 			continue
 		}
-		again, ret, closesInBody := c14Reaches(body, sel.Block())
+		// Path reasoning (bpath.go): walk every block-simple path from the case body with phis resolved by the
+		// edge taken, so a loop flag set to false in the body makes the loop test fail and the path leave the loop.
+		// certainAgain: a path comes back to the select without passing any undecided test, store or call —
+		// the goroutine definitely keeps waiting. maybeAgain: a path comes back, but only past tests/effects
+		// the walk cannot evaluate (e.g. a flag kept in memory).
+		certainAgain, maybeAgain, returns, odd := false, false, 0, ""
+		if !enumBlockPaths(body, func(from, to *ssa.BasicBlock) bool { return to == sel.Block() }, 20000, func(bp *bpath) {
+			switch {
+			case bp.End == "return":
+				returns++
+			case bp.End == "panic":
+			case bp.Arrive == sel.Block():
+				clean := len(bp.Conds) == 0
+				bp.instrsOnPath(nil, func(in ssa.Instruction, at int) {
+					switch in.(type) {
+					case *ssa.Store, ssa.CallInstruction, *ssa.Send, *ssa.MapUpdate:
+						clean = false
+					}
+				})
+				if clean {
+					certainAgain = true
+				} else {
+					maybeAgain = true
+				}
+			default:
+				odd = "a cycle that does not pass through the select"
+			}
+		}) {
+			odd = "path budget exhausted"
+		}
 		closes := false
 		allInstrs(fn, func(in ssa.Instruction) {
 			if df, ok := in.(*ssa.Defer); ok && df.Block().Dominates(sel.Block()) {
@@ -2157,14 +2186,14 @@ func (w *c14W) r3(hard, soft []*c14Site) {
 			}
 		})
 		switch {
-		case (again || !ret) && closesInBody:
-			c.Undec(rule, key, sel.Pos(), "after the hard timer fires the goroutine does not simply return but closes a channel on the way: how the search is stopped is not understood")
-		case again || !ret:
+		case certainAgain:
 			c.Fail(rule, key, sel.Pos(), "after the hard timer fires the interrupt goroutine can wait in the select again instead of returning: the stop channel is not closed and the search runs past the deadline")
+		case maybeAgain || odd != "" || returns == 0:
+			c.Undec(rule, key, sel.Pos(), "after the hard timer fires it cannot be established that the goroutine leaves its loop (%s; %d returning paths): how the search is stopped is not understood", map[bool]string{true: "a path may reach the select again past tests or effects the walk cannot evaluate", false: odd}[maybeAgain], returns)
 		case !closes:
 			c.Undec(rule, key, sel.Pos(), "the goroutine returns when the timer fires but no 'defer close(stop)' on the channel given to search.WithStop dominates the select: how the search is stopped is not understood")
 		default:
-			c.Ok(rule, key, sel.Pos(), "timer channel is select case %d; its body leaves %s on every path and the deferred close releases the channel given to search.WithStop", idx, fnName(fn))
+			c.Ok(rule, key, sel.Pos(), "timer channel is select case %d; every path from its body leaves %s (loop flags resolved per path) and the deferred close releases the channel given to search.WithStop", idx, fnName(fn))
 			nFire++
 		}
 	}
